@@ -20,6 +20,7 @@ type QueryOp struct {
 	Num   float64  `json:"num,omitempty"`
 	IDs   []string `json:"ids,omitempty"`
 	Order bool     `json:"order,omitempty"`
+	Lead  int      `json:"lead,omitempty"` // proj: 0 = the never-NULL columns first, 1 = the nullable columns first, 2 = one nullable column on each side
 	Iter  string   `json:"iter,omitempty"` // next | bytes | one | early | hold (one row fetched, iterator left open)
 }
 
@@ -46,8 +47,18 @@ func (q QueryOp) SQL() (string, map[string]any) {
 	case "proj":
 		// two projected properties that are SQL NULL (hence absent from the row) for documents
 		// that do not have them
-		s = `SELECT ` + qCols + `, (CASE WHEN json_valid(CAST(body AS TEXT)) THEN CAST(body AS TEXT)->'$.n' END) AS n,` +
-			` (CASE WHEN xattrs IS NOT NULL AND json_valid(CAST(xattrs AS TEXT)) THEN CAST(xattrs AS TEXT)->'$._sync.seq' END) AS s FROM $_keyspace`
+		// (the row is a JSON object, so the order of the columns does not change what is expected;
+		// S-C19l: a row whose FIRST column is NULL)
+		nCol := `(CASE WHEN json_valid(CAST(body AS TEXT)) THEN CAST(body AS TEXT)->'$.n' END) AS n`
+		sCol := `(CASE WHEN xattrs IS NOT NULL AND json_valid(CAST(xattrs AS TEXT)) THEN CAST(xattrs AS TEXT)->'$._sync.seq' END) AS s`
+		switch q.Lead {
+		case 1:
+			s = `SELECT ` + nCol + `, ` + sCol + `, ` + qCols + ` FROM $_keyspace`
+		case 2:
+			s = `SELECT ` + sCol + `, ` + qCols + `, ` + nCol + ` FROM $_keyspace`
+		default:
+			s = `SELECT ` + qCols + `, ` + nCol + `, ` + sCol + ` FROM $_keyspace`
+		}
 	case "rawbody":
 		// the body projected as it is stored (JSON text inside the row), for documents whose body is JSON
 		s = `SELECT ` + qCols + `, body AS doc FROM $_keyspace WHERE json_valid(CAST(body AS TEXT)) AND instr(body, x'00') = 0`
@@ -535,6 +546,8 @@ func genQuery(rt *rapid.T, r *Run) (Op, bool) {
 		for i := 0; i < n; i++ {
 			q.IDs = append(q.IDs, pick(rt, append([]string{"zz", "a"}, w.Model.Keys(op.C)...), "q.inid"))
 		}
+	case "proj":
+		q.Lead = rapid.IntRange(0, 2).Draw(rt, "q.lead")
 	case "type":
 		q.Str = pick(rt, []string{"t1", "t2", "x"}, "q.type")
 	case "ngt":
